@@ -15,6 +15,15 @@ CLAIMED = {
  "C05": dict(level="proof", design="DESIGN.md 4/C05",
    text="create_next_state: every accepted transaction pays >= floor(weight*mult/65536); fee pool and tips grow by exactly the sum of minimum fees / remainders (fsum over the batch) under the no-overflow envelope; refusal for fees only when some transaction pays strictly less.",
    note=TRUST + "Transaction::base_fee/weight formula assumed (A-STRUCTS); proposer reward coin (collect_proposer_action_fee) pending in the seal unit.", technique=T_VERUS),
+ "C06": dict(level="proof", design="DESIGN.md 4/C06",
+   text="apply_block proved: Ok(r) only if header(r) == block.header and r is (next_unsealed; apply the block's transactions in some enumeration; seal with the block's action); Err(WrongHeader) only if that state's header differs; to_block proved to serialise header/transactions/action; seal proved against seal_rel; apply_tx_batch proved a no-op on Err.",
+   note=TRUST + "Batch application enters through the relation batch_result (frame consequences only; apply_tx_batch_impl composition pending); A-DET names deterministic results of exec functions by spec functions.", technique=T_VERUS),
+ "C07": dict(level="proof", design="DESIGN.md 4/C07",
+   text="SealedState::header proved field by field against spec_header (roots as functions of contents); next_unsealed proved: height+1, history gets the header at its height, network unchanged, chain invariant (each stored header at its height, linked to its parent by hash) preserved.",
+   note=TRUST + "Merkle proofs and root history-independence are novasmt's (A-SMT: roots are injective functions of contents); typed SMT wrappers and transaction roots assumed by contract.", technique=T_VERUS),
+ "C08": dict(level="proof", design="DESIGN.md 4/C08",
+   text="from_block proved field by field; for every sealed state s whose block is the argument, the rebuilt state has the same contents in every component (root injectivity) - under the envelope tips == 0; the excluded domain is the genuine defect F-C08-tips (real-code witness).",
+   note=TRUST + "equal contents => equal futures rests on the transition contracts mentioning only the views (A-DET).", technique=T_VERUS),
  "C13": dict(level="proof", design="DESIGN.md 4/C13",
    text="stake_is_consistent <=> the three conditions; load_stake_info registers exactly the consistent SYM stakes and rejects malformed ones; check_tx_validity rejects inputs whose creating transaction is a registered or new stake; StakeSet::votes/total_votes equal the order-independent sum over stakes with start <= epoch < end; unlock_old keeps exactly e_post_end >= epoch.",
    note=TRUST + "Lock window over histories (next_unsealed chain) and stakes_hash commitment pending in the seal unit.", technique=T_VERUS),
